@@ -278,4 +278,51 @@ impl<'w, 'r, W: Write> Serializer<'w, 'r, W> {
     }
 //@end
 }
+
+// ---- the public entry points: the serializer handed to the value is a fresh root serializer ----
+//@extract se::to_writer | src/se/mod.rs :: fn to_writer | serves=C13 features=serialize
+ pub fn to_writer<W, T>(mut writer: W, value: &T) -> Result<WriteResult, SeError>
+where
+    W: Write,
+    T: ?Sized + Serialize,
+{
+    value.serialize(Serializer::new(&mut writer))
+}
+//@end
+//@extract se::to_string | src/se/mod.rs :: fn to_string | serves=C13 features=serialize
+ pub fn to_string<T>(value: &T) -> Result<String, SeError>
+where
+    T: ?Sized + Serialize,
+{
+    let mut buffer = String::new();
+    to_writer(&mut buffer, value)?;
+    Ok(buffer)
+}
+//@end
+//@extract se::to_writer_with_root | src/se/mod.rs :: fn to_writer_with_root | serves=C13 features=serialize
+ pub fn to_writer_with_root<W, T>(
+    mut writer: W,
+    root_tag: &str,
+    value: &T,
+) -> (r: Result<WriteResult, SeError>)
+where
+    W: Write,
+    T: ?Sized + Serialize,
+    // C13: an illegal root tag is an error before anything is serialized
+    ensures r is Ok ==> is_xml_name(root_tag@),
+{
+    value.serialize(Serializer::with_root(&mut writer, Some(root_tag))?)
+}
+//@end
+//@extract se::to_string_with_root | src/se/mod.rs :: fn to_string_with_root | serves=C13 features=serialize
+ pub fn to_string_with_root<T>(root_tag: &str, value: &T) -> (r: Result<String, SeError>)
+where
+    T: ?Sized + Serialize,
+    ensures r is Ok ==> is_xml_name(root_tag@),
+{
+    let mut buffer = String::new();
+    to_writer_with_root(&mut buffer, root_tag, value)?;
+    Ok(buffer)
+}
+//@end
 }
